@@ -742,6 +742,8 @@ impl DirectAddrUpdateState {
         run_done: mpsc::Sender<()>,
         shutdown_token: CancellationToken,
     ) -> Self {
+        #[cfg(feature = "verif-hooks")]
+        crate::verif_hooks::c25::register(&net_reporter);
         DirectAddrUpdateState {
             want_update: Default::default(),
             port_mapper,
@@ -758,9 +760,13 @@ impl DirectAddrUpdateState {
     fn schedule_run(&mut self, why: UpdateReason, if_state: IfStateDetails) {
         match self.net_reporter.clone().try_lock_owned() {
             Ok(net_reporter) => {
+                #[cfg(feature = "verif-hooks")]
+                crate::verif_hooks::sched::event("c25.schedule", format!("free {why:?}"));
                 self.run(why, if_state, net_reporter);
             }
             Err(_) => {
+                #[cfg(feature = "verif-hooks")]
+                crate::verif_hooks::sched::event("c25.schedule", format!("busy {why:?}"));
                 let _ = self.want_update.insert(why);
             }
         }
@@ -770,11 +776,15 @@ impl DirectAddrUpdateState {
     fn try_run(&mut self, if_state: IfStateDetails) {
         match self.net_reporter.clone().try_lock_owned() {
             Ok(net_reporter) => {
+                #[cfg(feature = "verif-hooks")]
+                crate::verif_hooks::sched::event("c25.try_run", format!("free {:?}", self.want_update));
                 if let Some(why) = self.want_update.take() {
                     self.run(why, if_state, net_reporter);
                 }
             }
             Err(_) => {
+                #[cfg(feature = "verif-hooks")]
+                crate::verif_hooks::sched::event("c25.try_run", format!("busy {:?}", self.want_update));
                 // do nothing
             }
         }
@@ -792,12 +802,16 @@ impl DirectAddrUpdateState {
         // we are shutting down
         if self.shutdown_token.is_cancelled() {
             debug!("skipping net_report, socket is shutting down");
+            #[cfg(feature = "verif-hooks")]
+            crate::verif_hooks::sched::event("c25.run", "skip_shutdown");
             // deactivate portmapper
             self.port_mapper.deactivate();
             return;
         }
         if self.relay_map.is_empty() {
             debug!("skipping net_report, empty RelayMap");
+            #[cfg(feature = "verif-hooks")]
+            crate::verif_hooks::sched::event("c25.run", "skip_empty");
             self.sock.net_report.set((None, why)).ok();
             return;
         }
@@ -806,6 +820,8 @@ impl DirectAddrUpdateState {
         self.port_mapper.procure_mapping();
 
         trace!("requesting net_report report");
+        #[cfg(feature = "verif-hooks")]
+        crate::verif_hooks::sched::event("c25.run", "spawn");
         let sock = self.sock.clone();
 
         let run_done = self.run_done.clone();
@@ -815,6 +831,8 @@ impl DirectAddrUpdateState {
         let inner_token = token.child_token();
         task::spawn(
             async move {
+                #[cfg(feature = "verif-hooks")]
+                crate::verif_hooks::sched::pause("socket.direct_addr.before_report").await;
                 let fut = token.run_until_cancelled(time::timeout(
                     NET_REPORT_TIMEOUT,
                     net_reporter.get_report(if_state, why.is_major(), inner_token),
@@ -837,7 +855,11 @@ impl DirectAddrUpdateState {
                 // Release the reporter before signalling: the actor answers the signal
                 // with `try_run`, which gives up if the reporter is still locked.
                 drop(net_reporter);
+                #[cfg(feature = "verif-hooks")]
+                crate::verif_hooks::sched::pause("socket.direct_addr.before_done_send").await;
                 run_done.send(()).await.ok();
+                #[cfg(feature = "verif-hooks")]
+                crate::verif_hooks::sched::pause("socket.direct_addr.after_done_send").await;
             }
             .instrument(tracing::Span::current()),
         );
@@ -1572,6 +1594,8 @@ impl Actor {
                 reason = self.direct_addr_done_rx.recv() => {
                     match reason {
                         Some(()) => {
+                            #[cfg(feature = "verif-hooks")]
+                            crate::verif_hooks::sched::pause("socket.actor.before_try_run").await;
                             // check if a new run needs to be scheduled
                             let state = self.local_interfaces_watcher.get();
                             self.direct_addr_update_state.try_run(state.into());
